@@ -160,7 +160,7 @@ def _eventful(cx, tracks):
 
 @harness(labels=['load-outcome', 'save-refuses-only-as-listed', 'second-load', 'events-preserved',
                  'normal-form-idempotent'])
-def lsl(cx, N, part=None):
+def lsl(cx, N, part=None, part2=None):
     """Fixed point: track body of N arbitrary bytes inside concrete MThd/MTrk
     framing.  Whenever load succeeds and save succeeds, load(save(load(b)))
     keeps every non-end_of_track event at its absolute tick, and save(load(.))
@@ -169,6 +169,8 @@ def lsl(cx, N, part=None):
     body = [cx.int('b%d' % i, 0, 255) for i in range(N)]
     if part is not None and N:
         cx.assume(cx.And(part[0] <= body[1 if N > 1 else 0], body[1 if N > 1 else 0] <= part[1]))
+    if part2 is not None and N > 2:
+        cx.assume(cx.And(part2[0] <= body[2], body[2] <= part2[1]))
     data = list(b'MThd') + [0, 0, 0, 6, 0, 1, 0, 1, 0, 96] + list(b'MTrk') + [0, 0, 0, N] + body
     f1, exc = cx.raises(lambda: mido.MidiFile(file=smf.in_file(cx, data)), Exception, label='load-outcome')
     if exc is not None:
@@ -252,7 +254,7 @@ def JOBS(tier):
     for part in PARTS:
         jobs.append((lsl, {'N': 5, 'part': part}, {'cost': 3000}))
     if not quick:
-        R = smf.REP_KINDS
+        R = [k if k != 'unknown_meta' else 'unknown_meta0' for k in smf.REP_KINDS]
         for a in R:
             for b in R:
                 for c in R:
@@ -261,5 +263,10 @@ def JOBS(tier):
         jobs.append((file_rt, {'kinds': [['note_on', 'sysex1', 'program_change', 'note_on']], 'wide': (0, 1, 2, 3)},
                      {'cost': 600}))
         for part in PARTS:
-            jobs.append((lsl, {'N': 6, 'part': part}, {'cost': 30000}))
+            if part == (255, 255):
+                # meta events: split further on the meta type byte (0x59 key_signature alone enumerates 65536 payloads)
+                for part2 in ((0, 0x50), (0x51, 0x58), (0x59, 0x59), (0x5A, 0x7E), (0x7F, 0xFF)):
+                    jobs.append((lsl, {'N': 6, 'part': part, 'part2': part2}, {'cost': 90000, 'deadline_s': 3000}))
+            else:
+                jobs.append((lsl, {'N': 6, 'part': part}, {'cost': 30000}))
     return jobs
